@@ -23,9 +23,9 @@ def gen_secdefs(rng):
     out = []
     for _ in range(rng.randint(0, 4)):
         if rng.random() < 0.55:
-            out.append(["lines", rng.randint(0, 3), rng.choice("tthn")])
+            out.append(["lines", rng.randint(0, 3), rng.choice("tthn"), rng.choice(["data", "data", "own"])])
         else:
-            out.append(["until", rng.choice(bl.PATTERN_POOL), rng.choice("tthn")])
+            out.append(["until", rng.choice(bl.PATTERN_POOL), rng.choice("tthn"), rng.choice(["data", "data", "own"])])
     return out
 
 
@@ -38,7 +38,7 @@ class CHECK(Check):
             "newline: every content of <=4 lines (quick: <=3) over an 8-line pool for 12 fixed section lists (complete), plus "
             "random lists/contents of up to 12 lines. Observed: element types and raw data of SectionFile.read(content).data and "
             "the output of write. non-trivial = content shorter than the declared sections expect, or leftovers; distinct = hash"
-            " Later additions: section read() returning True/honest False/None, a third of the cases read from disk, carriage returns as ordinary characters.")
+            " Later additions: section read() returning True/honest False/None, a third of the cases read from disk, carriage returns as ordinary characters, sections keeping what they read in an attribute of their own (data stays None).")
 
     def gen(self, tier, rng):
         import random
